@@ -643,6 +643,25 @@ def run_fn(ctx):
                              "4000-29999" if n < 30000 else ">=30000") + "]")
         if exc is None and idx % 3 == 0:
             pending.append((c, res))
+        elif exc is None and idx % 3 == 1 and n >= 2 and c["a"].flags.writeable:
+            # the same array objects, modified in place, are a different input: the second
+            # call is judged by the monitor like any other (values / mask of the current data)
+            rng2 = ctx.rng(idx, salt=11)
+            a = c["a"]
+            how = int(rng2.integers(0, 3))
+            with np.errstate(all="ignore"):
+                if how == 0 and a.dtype.kind == "f":
+                    a[rng2.random(n) < 0.3] = np.nan
+                elif how == 1:
+                    a[:] = a[::-1].copy()
+                else:
+                    a[:] = (a * 3 + 1).astype(a.dtype)
+            _S.origin = "modified in place"
+            try:
+                _run_fn_call(c)
+            finally:
+                _S.origin = "direct"
+            ctx.count(f"calls_after_in_place_modification[{how}]")
         if idx % 211 == 0:
             Cache.clear_cache()
             ctx.count("cache_cleared")
